@@ -20,7 +20,10 @@ use nom::number::complete::{be_u8, be_u16};
 use nom_derive::*;
 use serde::Serialize;
 
+#[cfg(not(any(kani, netflow_parser_verif)))]
 use std::collections::BTreeMap;
+#[cfg(any(kani, netflow_parser_verif))]
+use crate::verif_shim::VMap as BTreeMap;
 
 const OPTIONS_TEMPLATE_ID: u16 = 3;
 const SET_MIN_RANGE: u16 = 255;
